@@ -62,9 +62,15 @@ def make_recipe(rng, tier):
     int_dtype = bool(rng.random() < 0.2)
     if int_dtype:
         X = np.round(2 * X)  # count-like data, passed with an integer dtype
-    return {"det": spec, "X": X, "int_dtype": int_dtype, "container": "series" if rng.random() < 0.5 else "frame",
-            "index": (INDEX_KINDS + ["datetime_ties"])[int(rng.integers(6))], "data_kind": kind,
-            "prefit": prefit}
+    out = {"det": spec, "X": X, "int_dtype": int_dtype, "container": "series" if rng.random() < 0.5 else "frame",
+           "index": (INDEX_KINDS + ["datetime_ties"])[int(rng.integers(6))], "data_kind": kind,
+           "prefit": prefit}
+    if rng.random() < 0.3:
+        # trained on a series of another length, then asked about X: the segments are those of X
+        m = int(rng.integers(max(nmin, 2), max(nmin, 2) + 90))
+        T = gen_data(rng, m, 1, "mean_changes")[0]
+        out["train"] = (np.round(2 * T) if int_dtype else T).tolist()
+    return out
 
 
 def _fitted_state(obj):
@@ -107,9 +113,16 @@ def exec_case(ctx, r):
 
             det = StatThresholdAnomaliser(wrapped, stat=FUNCTIONS[kw["stat"]["fn"]],
                                           stat_lower=kw["stat_lower"], stat_upper=kw["stat_upper"])
-            det.fit(data)
+            train = data
+            if r.get("train") is not None:
+                T = np.asarray(r["train"], dtype=float)
+                T = T.astype(np.int64) if r.get("int_dtype") else T
+                tf = make_frame(T, r["index"], dtype=str(T.dtype))
+                train = tf.iloc[:, 0] if r["container"] == "series" else tf
+                ctx.stat("cases[trained on a series of another length]")
+            det.fit(train)
             y = det.predict(data)
-            twin = build(inner_spec).fit(data)
+            twin = build(inner_spec).fit(train)
             cp = [int(c) for c in twin.predict(data)["ilocs"].tolist()]
     except CaseTimeout:
         ctx.stat("case_timeouts")
